@@ -39,10 +39,14 @@ OPTION_SETS = {
     # files were, so compactions re-create setsums that an earlier edit removed
     "recreate": ["--sst-target-file-size", "240", "--sst-minimum-file-size", "40", "--sst-target-block-size", "64",
                  "--gc-policy", "versions = 50"],
+    # the same, and the manifest rolls over on open only: what a compaction re-creates stays in the
+    # live MANIFEST while older numbered fragments (made by reopens) are what the verifier reads
+    "recreate-live": ["--sst-target-file-size", "240", "--sst-minimum-file-size", "40", "--sst-target-block-size", "64",
+                      "--gc-policy", "versions = 50", "--mani-log-rollover-ratio", "1000000"],
     "few-files-per-compaction": ["--sst-target-file-size", "300", "--sst-minimum-file-size", "100", "--sst-target-block-size", "96",
                                  "--max-compaction-files", "4"],
 }
-OPTION_ORDER = ["tiny-files", "recreate", "default-limits", "recreate", "few-files-per-compaction", "recreate"]
+OPTION_ORDER = ["tiny-files", "recreate-live", "recreate", "default-limits", "recreate-live", "few-files-per-compaction", "recreate", "recreate-live"]
 
 
 def gen_history(rng, n_ops, optname):
@@ -50,7 +54,9 @@ def gen_history(rng, n_ops, optname):
        ['w', khex, vhex|None] ['flush'] ['compact', n] ['compact1'] ['hookcompact', r] ['reopen']
        ['take', r, 'snap'|'cur'] ['drop', r] ['verify'] ['vkill', j] ['skill', j] ['reads']"""
     ops = []
-    recreate = optname == "recreate"
+    recreate = optname in ("recreate", "recreate-live")
+    if optname == "recreate-live":
+        return gen_history_live(rng, n_ops)
     universe = [b"a", b"b", b"c"] if recreate else lsmlib.UNIVERSE[:rng.choice([4, 6, 10])]
     for _ in range(n_ops):
         r = rng.below(100)
@@ -84,6 +90,46 @@ def gen_history(rng, n_ops, optname):
             ops.append(["skill", "flush", rng.choice([1, 1, 1, 2])])
         else:
             ops.append(["skill", "compact", rng.range(1, 4)])
+    return ops, [k.hex() for k in universe]
+
+
+def gen_history_live(rng, n_ops):
+    """phases of writes / flushes / compaction bursts separated by pairs of reopens (each reopen
+    makes one numbered fragment; nothing else rolls the manifest over), with verifier passes inside
+    the later phases: setsums that an old fragment removed are re-created, and sometimes removed
+    again, by edits that are still in the live MANIFEST when the verifier reads the old fragment"""
+    ops = []
+    universe = [b"a", b"b", b"c"]
+
+    def phase(n, verify):
+        for _ in range(n):
+            r = rng.below(100)
+            if r < 40:
+                k = rng.choice(universe)
+                ops.append(["w", k.hex(), None] if rng.chance(1, 4) else ["w", k.hex(), rng.choice([b"", b"y" * 40]).hex()])
+            elif r < 58:
+                ops.append(["flush"])
+            elif r < 84 or not verify:
+                ops.append(["compact", rng.choice([2, 8, 20, 40])])
+            elif r < 88:
+                ops.append(["take", rng.below(2), "snap"])
+            elif r < 91:
+                ops.append(["drop", rng.below(2)])
+            elif r < 98:
+                ops.append(["verify"])
+            else:
+                ops.append(["vkill", rng.range(1, 4)])
+
+    phase(max(20, n_ops // 3), False)
+    left = n_ops - len(ops)
+    while left > 0:
+        ops.append(["reopen"])
+        ops.append(["reopen"])
+        n = min(left, rng.choice([25, 40, 60]))
+        phase(n, True)
+        ops.append(["compact", 40])
+        ops.append(["verify"])
+        left -= n
     return ops, [k.hex() for k in universe]
 
 
@@ -204,16 +250,20 @@ def run(chk):
         if c.get("flush", 0) >= 2 and (c.get("merge", 0) + c.get("gc", 0)) >= 1 and (c.get("take", 0) + c.get("verify_ok", 0) + c.get("vkill", 0)) >= 1:
             shapes.add(json.dumps(ops)[:3000])
         first_known = min([e[2] for e in r.known_events if e[0] in known], default=None)
+        k_names = set(e[3] for e in r.known_events if e[0] in known and len(e) > 3)
         for e in r.known_events:
             if e[0] in known:
                 chk.known(e[0], known[e[0]])
-        fresh = [p for p in r.problems if first_known is None or p["at_event"] < first_known]
+        # a known event explains what follows it in that history (the verifier is wedged and the model
+        # no longer follows it) — except an unlink of a setsum that is NOT one of the class's names
+        fresh = [p for p in r.problems if first_known is None or p["at_event"] < first_known
+                 or (p["kind"] == "incarnation" and p.get("name") not in k_names)]
         unlisted = [e for e in r.known_events if e[0] not in known]
         replay = {"name": name, "options": optname, "ops": ops, "universe": universe, "problems": fresh[:8],
                   "known_events": [list(e) for e in r.known_events[:5]], "events_tail": [list(e) for e in r.events]}
         if any(p["kind"] == "machinery" for p in fresh):
             mach_bad.append(replay)
-        elif any(p["kind"] in ("needed", "read", "error", "verifier") for p in fresh) or unlisted:
+        elif any(p["kind"] in ("needed", "read", "error", "verifier", "incarnation") for p in fresh) or unlisted:
             prop_bad.append(replay)
         elif fresh:
             corr_bad.append(replay)
